@@ -20,12 +20,15 @@ structure Snd where
 def Snd.init : Snd := ⟨false, false, false, false⟩
 
 /-- one downstream-sender call: headers at most once and first, data/trailers only after headers, nothing after the
-end of stream, no reset after the end of stream and at most one reset, nothing after a reset -/
+end of stream, no reset after the end of stream and at most one reset, nothing after a reset; and the request is never
+(re)sent upstream — no `ConnectionPool.NewStream`, admitted or refused — once response headers went to the client -/
 def sndStep (g : Snd) : Ev → Snd
   | .dh _ e => { hdr := true, ended := g.ended || e, reset := g.reset, bad := g.bad || g.hdr || g.ended || g.reset }
   | .dd e => { g with ended := g.ended || e, bad := g.bad || !g.hdr || g.ended || g.reset }
   | .dt => { g with ended := true, bad := g.bad || !g.hdr || g.ended || g.reset }
   | .dr => { g with reset := true, bad := g.bad || g.ended || g.reset }
+  | .un _ => { g with bad := g.bad || g.hdr }
+  | .uf _ _ => { g with bad := g.bad || g.hdr }
   | _ => g
 
 def snd (t : List Ev) : Snd := t.foldl sndStep Snd.init
